@@ -15,26 +15,27 @@ Init == /\ A \in CoMasks(N, Sym) \X Modes
         /\ pc = "gen" /\ out = <<>>
 Gen  == pc = "gen" /\ pc' = "in" /\ A' = CoMat(N, Sym, A[1], A[2]) /\ UNCHANGED <<eps, om, out>>
 
-Ab == Lift(A, BS)
 Coarsen(M, bs) ==
     LET ag == PointwiseAggRun(M, eps, bs, 0, LiftBug)
     IN  IF ag.empty THEN [empty |-> TRUE]
         ELSE LET Pt == TentRun(M.n, ag.count, ag.id)
                  sa == SARun(M, [p \in 1..NNZ(M) |-> ag.strong[p] = 1], Pt, om)
              IN  [empty |-> FALSE, ag |-> ag, Pt |-> Pt, P |-> sa.P, widthsOK |-> sa.widthsOK]
+\* Ab and the definitional flags are computed once and kept in `out` for the invariants
 Run  == /\ pc = "in" /\ pc' = "done" /\ UNCHANGED <<A, eps, om>>
-        /\ out' = [b |-> Coarsen(Ab, BS), s |-> IF BS = 1 THEN <<>> ELSE Coarsen(A, 1)]
+        /\ LET Ab == Lift(A, BS)
+           IN  out' = [Ab |-> Ab, S |-> IF BS = 1 THEN StrongFlags(Ab, eps) ELSE DefBlockFlags(Ab, eps, BS),
+                       b |-> Coarsen(Ab, BS), s |-> IF BS = 1 THEN <<>> ELSE Coarsen(A, 1)]
 Next == Gen \/ Run
 
 Live == pc = "done" /\ ~out.b.empty
-SDef == IF BS = 1 THEN StrongFlags(Ab, eps) ELSE DefBlockFlags(Ab, eps, BS)
-TentInv == Live => /\ TentativeOK(Ab.n, out.b.ag.count, out.b.ag.id, out.b.Pt)
+TentInv == Live => /\ TentativeOK(out.Ab.n, out.b.ag.count, out.b.ag.id, out.b.Pt)
                    /\ DisjointSupportOK(out.b.Pt) /\ ColumnsOrthogonalOK(out.b.Pt)
                    /\ ConstantReproducedOK(out.b.ag.id, out.b.Pt)
-                   /\ IdsOf(out.b.Pt) = [k \in 1..Ab.n |-> IF out.b.ag.id[k] >= 0 THEN out.b.ag.id[k] ELSE Removed]
-SmoothedInv == Live => /\ SmoothedOK(Ab, SDef, out.b.ag.id, out.b.ag.count, om, out.b.P, RatNear)
+                   /\ IdsOf(out.b.Pt) = [k \in 1..out.Ab.n |-> IF out.b.ag.id[k] >= 0 THEN out.b.ag.id[k] ELSE Removed]
+SmoothedInv == Live => /\ SmoothedOK(out.Ab, out.S, out.b.ag.id, out.b.ag.count, om, out.b.P, RatNear)
                        /\ out.b.widthsOK /\ NoDup(out.b.P)
-RowSumInv == Live => RowSumOneOK(Ab, SARows(Ab, SDef), out.b.P, RatNear)
+RowSumInv == Live => RowSumOneOK(out.Ab, SARows(out.Ab, out.S), out.b.P, RatNear)
 \* block problem = lifted scalar problem
 KronInv == (Live /\ BS > 1) => ~out.s.empty /\ KronPOK(out.s.P, BS, out.b.P, RatNear)
 =============================================================================
